@@ -104,6 +104,8 @@ class Tr:
                 return f"(ElexModel.rmax {self.expr(args[0])} {self.expr(args[1])})"
             if f == "round" and len(args) == 2 and isinstance(args[1], ast.Constant):
                 return f"(ElexModel.pyRound {self.expr(args[0])} {int(args[1].value)})"
+            if f == "np.where" and len(args) == 3:
+                return f"(if {self.expr(args[0])} then {self.expr(args[1])} else {self.expr(args[2])})"
             if f == "len" and len(args) == 1:
                 return f"(({self.expr(args[0])}.length : Nat) : Rat)"
             raise TranslateError(f"call {f}")
@@ -383,7 +385,18 @@ def gen_C18():
     return out
 
 
-GENERATORS = {"C06": gen_C06, "C07": gen_C07, "C14": gen_C14, "C18": gen_C18, "C20": gen_C20}
+def gen_C10():
+    """the masking of historical results of units that are not yet reporting (HistoricalModelClient._format_historical_current_data)"""
+    src, tree = _parse("client.py")
+    fn = _find(tree, "HistoricalModelClient", "_format_historical_current_data")
+    wheres = [n for n in ast.walk(fn) if isinstance(n, ast.Call) and ast.unparse(n.func) == "np.where"]
+    if len(wheres) != 1:
+        raise TranslateError("_format_historical_current_data: expected exactly one np.where")
+    tr = Tr(src, {"x.percent_expected_vote": "pev", "percent_reporting_threshold": "thr", "x[column_name]": "v"})
+    return [lean_def("hist_mask", [("pev", "Rat"), ("thr", "Rat"), ("v", "Rat")], "Rat", "  " + tr.expr(wheres[0]))]
+
+
+GENERATORS = {"C06": gen_C06, "C07": gen_C07, "C10": gen_C10, "C14": gen_C14, "C18": gen_C18, "C20": gen_C20}
 
 HEADER = """import ElexModel.Core.Num
 /-! GENERATED by harness/extract.py from /repo/src on every check run. Do not edit. -/
